@@ -174,10 +174,11 @@ def direct(ctx):
                 sol = None
             gr = rets[0].value
             if isinstance(sol, ast.Name):
+                # (the loader's canonical form spells the test positively: `if lu_factor is None: <solve> else: <lu_solve>`)
                 br = {s.guards[-1][1]: s.value for s in S if s.op == "=" and isinstance(s.tnode, ast.Name) and s.tnode.id == sol.id and len(s.guards) == 2 and s.guards[0] == (blocked, flag)
-                      and s.guards[1][0] in (ex("lu_factor is not None"),)}
+                      and s.guards[1][0] in (ex("lu_factor is None"),)}
                 gv = br
-                ok_ret = br.get(True) == ex("lu_solve(lu_factor, %s)" % vec) and br.get(False) == ex("solve(A.weak_form().to_dense(), %s)" % vec)
+                ok_ret = br.get(False) == ex("lu_solve(lu_factor, %s)" % vec) and br.get(True) == ex("solve(A.weak_form().to_dense(), %s)" % vec)
         r_lu.check(ok_ret, "lu %s solve/return" % kind, DS, "lu", rets[0].node.lineno if rets else fn.lineno, "lu %s returns %s" % (kind, gr),
                    "the %s path returns `%s` with the solution defined as %s; expected the result in A's domain space(s) from lu_solve(lu_factor, rhs) / solve(dense weak form, rhs) with rhs = %s" % (kind, gr, gv, vec))
     cf = dm.fn("compute_lu_factors")
